@@ -850,6 +850,10 @@ func (c *Compiler) VerifyModuleIncludes(m parse.Node, submodules map[string]pars
 	}
 	for _, s := range submodules {
 		for _, i := range s.ChildrenByType(parse.NodeInclude) {
+			if i.Name() == s.Name() {
+				// the shortest circular chain of includes
+				c.error(i, fmt.Errorf("submodule %s includes itself", s.Name()))
+			}
 			g.AddEdge(s.Name(), i.Name())
 		}
 	}
